@@ -885,6 +885,116 @@ fn search_wire_roundtrip(obs: &[&str]) {
     for ob in obs { emit(ob, found.is_some(), explored, found.clone().unwrap_or(Value::Null)); }
 }
 
+// C20 (slice): the real `varlink` binary ($VX_CLI_BIN, built by tools/replay.py from the tree under test) against a scripted peer.
+//   split  : `call unix:<dir with dots and slashes>/sock/org.example.Ping` reaches that socket with method org.example.Ping; without an
+//            address the resolver is asked for the text before the last '.', and the call goes to the address it returned
+//   status : exit status is 0 iff no reply was an error (single call, --more, error in the middle of --more)
+//   print  : stdout carries exactly the parameters of every successful reply, in order
+fn search_cli(obs: &[&str]) {
+    use std::io::{BufRead, BufReader, Write};
+    use std::os::unix::net::UnixListener;
+    use std::sync::{Arc, Mutex};
+    let mut found: std::collections::HashMap<&'static str, Value> = std::collections::HashMap::new();
+    let mut explored = 0usize;
+    let bin = match std::env::var("VX_CLI_BIN") { Ok(b) if std::path::Path::new(&b).exists() => b, _ => {
+        for ob in obs { println!("{}", json!({"obligation": ob, "found": false, "explored": 0, "detail": Value::Null, "note": "VX_CLI_BIN not built"})); }
+        return;
+    } };
+    let dir = std::env::temp_dir().join(format!("vx-c20-{}", std::process::id())).join("a.b").join("c.d");
+    let _ = std::fs::create_dir_all(&dir);
+    let sock = dir.join("sock");
+    let rsock = dir.join("resolver");
+    let _ = std::fs::remove_file(&sock); let _ = std::fs::remove_file(&rsock);
+    let seen: Arc<Mutex<Vec<(String, String)>>> = Arc::new(Mutex::new(Vec::new()));   // (which socket, method + parameters)
+    let service_addr = format!("unix:{}", sock.display());
+    for (which, path) in [("service", sock.clone()), ("resolver", rsock.clone())] {
+        let l = UnixListener::bind(&path).unwrap();
+        let seen = seen.clone();
+        let service_addr = service_addr.clone();
+        std::thread::spawn(move || {
+            for st in l.incoming() {
+                let st = match st { Ok(s) => s, Err(_) => return };
+                let seen = seen.clone();
+                let service_addr = service_addr.clone();
+                std::thread::spawn(move || {
+                    let mut w = st.try_clone().unwrap();
+                    let mut r = BufReader::new(st);
+                    loop {
+                        let mut buf = Vec::new();
+                        if r.read_until(0, &mut buf).unwrap_or(0) == 0 { return; }
+                        buf.pop();
+                        let req: Value = match serde_json::from_slice(&buf) { Ok(v) => v, Err(_) => return };
+                        let method = req["method"].as_str().unwrap_or("").to_string();
+                        seen.lock().unwrap().push((which.to_string(), format!("{} {}", method, req["parameters"])));
+                        let replies: Vec<Value> = if method == "org.varlink.resolver.Resolve" {
+                            vec![json!({"parameters": {"address": service_addr}})]
+                        } else if method.ends_with(".StreamFail") {
+                            vec![json!({"continues": true, "parameters": {"n": 1}}), json!({"error": "org.example.Err", "parameters": {"why": "x"}})]
+                        } else if method.ends_with(".Stream") {
+                            vec![json!({"continues": true, "parameters": {"n": 1}}), json!({"continues": true, "parameters": {"n": 2}}), json!({"parameters": {"n": 3}})]
+                        } else if method.ends_with(".Fail") {
+                            vec![json!({"error": "org.example.Err", "parameters": {"why": "x"}})]
+                        } else {
+                            vec![json!({"parameters": {"pong": 1}})]
+                        };
+                        for rep in replies {
+                            let mut out = serde_json::to_vec(&rep).unwrap(); out.push(0);
+                            if w.write_all(&out).is_err() { return; }
+                        }
+                    }
+                });
+            }
+        });
+    }
+    // (class, args after `varlink --color off --resolver <r>`, expected exit-ok, expected stdout values, expected (socket, method-prefix) seen)
+    let direct = |m: &str| format!("unix:{}/{}", sock.display(), m);
+    let cases: Vec<(&'static str, Vec<String>, bool, Vec<Value>, Vec<(&'static str, String)>)> = vec![
+        ("split", vec!["call".into(), direct("org.example.Ping")], true, vec![json!({"pong": 1})], vec![("service", "org.example.Ping ".into())]),
+        ("split", vec!["call".into(), "org.example.more.Ping".into()], true, vec![json!({"pong": 1})],
+            vec![("resolver", "org.varlink.resolver.Resolve {\"interface\":\"org.example.more\"}".into()), ("service", "org.example.more.Ping ".into())]),
+        ("print", vec!["call".into(), direct("org.example.Ping"), "{\"a\":1}".into()], true, vec![json!({"pong": 1})], vec![("service", "org.example.Ping {\"a\":1}".into())]),
+        ("status", vec!["call".into(), direct("org.example.Fail")], false, vec![], vec![("service", "org.example.Fail ".into())]),
+        ("print", vec!["call".into(), "-m".into(), direct("org.example.Stream")], true, vec![json!({"n": 1}), json!({"n": 2}), json!({"n": 3})], vec![("service", "org.example.Stream ".into())]),
+        ("status", vec!["call".into(), "-m".into(), direct("org.example.StreamFail")], false, vec![json!({"n": 1})], vec![("service", "org.example.StreamFail ".into())]),
+        ("status", vec!["call".into(), "-m".into(), direct("org.example.Fail")], false, vec![], vec![("service", "org.example.Fail ".into())]),
+    ];
+    for (class, args, want_ok, want_out, want_seen) in cases {
+        explored += 1;
+        seen.lock().unwrap().clear();
+        let mut cmd = std::process::Command::new(&bin);
+        cmd.arg("--color").arg("off").arg("--resolver").arg(format!("unix:{}", rsock.display()));
+        for a in &args { cmd.arg(a); }
+        let mut child = match cmd.stdin(std::process::Stdio::null()).stdout(std::process::Stdio::piped()).stderr(std::process::Stdio::piped()).spawn() { Ok(c) => c, Err(_) => continue };
+        let t0 = std::time::Instant::now();
+        let mut timed_out = false;
+        loop {
+            match child.try_wait() { Ok(Some(_)) => break, _ => {} }
+            if t0.elapsed() > Duration::from_secs(10) { timed_out = true; let _ = child.kill(); break; }
+            std::thread::sleep(Duration::from_millis(5));
+        }
+        let out = child.wait_with_output().unwrap();
+        let stdout = String::from_utf8_lossy(&out.stdout).to_string();
+        let stderr = String::from_utf8_lossy(&out.stderr).to_string();
+        let vals: Vec<Value> = serde_json::Deserializer::from_str(&stdout).into_iter::<Value>().filter_map(|v| v.ok()).collect();
+        let got_seen = seen.lock().unwrap().clone();
+        let detail = json!({"argv": args, "exit_ok": out.status.success(), "stdout": stdout, "stderr": stderr, "peer_saw": got_seen.iter().map(|(a, b)| format!("{}: {}", a, b)).collect::<Vec<_>>(),
+            "expected": {"exit_ok": want_ok, "stdout_values": want_out, "peer_sees": want_seen.iter().map(|(a, b)| format!("{}: {}", a, b)).collect::<Vec<_>>()}, "timed_out": timed_out});
+        if stderr.contains("panicked") { found.entry("panic").or_insert(detail.clone()); }
+        let seen_ok = want_seen.len() == got_seen.len() && want_seen.iter().zip(got_seen.iter()).all(|((ws, wm), (gs, gm))| ws == gs && gm.starts_with(wm.as_str()));
+        if !seen_ok { found.entry("split").or_insert(detail.clone()); }
+        if out.status.success() != want_ok || timed_out { found.entry("status").or_insert(detail.clone()); }
+        if seen_ok && vals != want_out { found.entry("print").or_insert(detail.clone()); }
+        let _ = class;
+    }
+    let _ = std::fs::remove_dir_all(std::env::temp_dir().join(format!("vx-c20-{}", std::process::id())));
+    for ob in obs {
+        let class = match *ob { "C20.split" => "split", "C20.status" => "status", "C20.print" => "print", "C20.no-panic" => "panic", _ => "none" };
+        // a reply that is not printed is also a status defect when the exit status says success
+        let f = found.get(class);
+        emit(ob, f.is_some(), explored, f.cloned().unwrap_or(Value::Null));
+    }
+}
+
 fn main() {
     let pat = std::env::args().nth(1).unwrap_or_else(|| "*".to_string());
     let m = |ob: &str| -> bool {
@@ -919,6 +1029,8 @@ fn main() {
     let ad: Vec<&str> = ["C16.scheme", "C16.params", "C16.activation", "C16.no-panic"].iter().cloned().filter(|o| m(o)).collect();
     if !ad.is_empty() { search_address(&ad); }
     if m("C03.info") { search_info_dups("C03.info"); }
+    let cli: Vec<&str> = ["C20.split", "C20.status", "C20.print", "C20.no-panic"].iter().cloned().filter(|o| m(o)).collect();
+    if !cli.is_empty() { search_cli(&cli); }
     let wr: Vec<&str> = ["C17.wire-attrs"].iter().cloned().filter(|o| m(o)).collect();
     if !wr.is_empty() { search_wire_roundtrip(&wr); }
 }
